@@ -431,6 +431,104 @@ func c14RowsSteps(schema *parquet.Schema, rows reflect.Value, batches []int, opt
 	}
 }
 
+// c14Wrap puts one of the library's RowWriter adaptors in front of w and says how many of the rows
+// reach w. The adaptors sit between the application and the writer, so an error of the destination
+// has to come out of *their* WriteRows.
+func c14Wrap(kind string, w parquet.RowWriter, rows []parquet.Row) (rw parquet.RowWriter, kept int) {
+	keep := func(row parquet.Row) bool { return len(row) > 0 && row[0].Int64()%5 != 0 }
+	switch kind {
+	case "filter":
+		for _, row := range rows {
+			if keep(row) {
+				kept++
+			}
+		}
+		return parquet.FilterRowWriter(w, keep), kept
+	case "transform":
+		for _, row := range rows {
+			if keep(row) {
+				kept++
+			}
+		}
+		return parquet.TransformRowWriter(w, func(dst, src parquet.Row) (parquet.Row, error) {
+			if !keep(src) {
+				return dst, nil
+			}
+			return append(dst, src...), nil
+		}), kept
+	case "dedupe":
+		cmp := func(a, b parquet.Row) int {
+			switch x, y := a[0].Int64(), b[0].Int64(); {
+			case x < y:
+				return -1
+			case x > y:
+				return 1
+			}
+			return 0
+		}
+		for i, row := range rows {
+			if i == 0 || cmp(rows[i-1], row) != 0 {
+				kept++
+			}
+		}
+		return parquet.DedupeRowWriter(w, cmp), kept
+	case "multi":
+		return parquet.MultiRowWriter(w), len(rows)
+	}
+	panic("c14: unknown adaptor " + kind)
+}
+
+// a RowWriter adaptor of the library (FilterRowWriter, TransformRowWriter, DedupeRowWriter,
+// MultiRowWriter) in front of a Writer: WriteRows on the adaptor in batches (or one parquet.CopyRows
+// into it), Close on the writer. Only a non-nil error counts as a report.
+func c14WrapSteps(kind string, copyRows bool, schema *parquet.Schema, prs []parquet.Row, batches []int, opts ...parquet.WriterOption) func(e *c14Env) {
+	return func(e *c14Env) {
+		var w *parquet.Writer
+		var rw parquet.RowWriter
+		e.call("New", false, func() error {
+			w = parquet.NewWriter(e.dest, append(append([]parquet.WriterOption{schema}, opts...), e.opts...)...)
+			rw, _ = c14Wrap(kind, w, prs)
+			return nil
+		})
+		if w == nil {
+			return
+		}
+		rest := prs
+		if copyRows {
+			e.call("CopyRows", false, func() error {
+				i := 0
+				_, err := parquet.CopyRows(rw, parquet.RowReaderFunc(func(buf []parquet.Row) (int, error) {
+					n := 0
+					for n < len(buf) && n < 7 && i < len(rest) {
+						buf[n] = append(buf[n][:0], rest[i]...)
+						n, i = n+1, i+1
+					}
+					if i == len(rest) {
+						return n, io.EOF
+					}
+					return n, nil
+				}))
+				return err
+			})
+		} else {
+			for _, b := range batches {
+				if b > len(rest) {
+					b = len(rest)
+				}
+				if b > 0 {
+					part := rest[:b]
+					e.call("WriteRows", false, func() error { _, err := rw.WriteRows(part); return err })
+				}
+				rest = rest[b:]
+			}
+			if len(rest) > 0 {
+				e.call("WriteRows", false, func() error { _, err := rw.WriteRows(rest); return err })
+			}
+		}
+		e.call("Close", true, w.Close)
+	}
+}
+
 // WriteRowGroup of every row group of a source file (verbatim copy path when the options allow it)
 func c14CopySteps(src []byte, opts ...parquet.WriterOption) func(e *c14Env) {
 	return func(e *c14Env) {
@@ -619,6 +717,32 @@ func c14Configs(ctx *core.Ctx) []*c14Config {
 			run: c14SortingSteps(rows, []int{11, 11, 11}, 10, sortOpt, parquet.PageBufferSize(200))}
 		c.desc = "c14Row path=sorting-writer rows=40 batches=[11 11 11] sortRowCount=10 sort=k pagebuf=200 buf=20"
 		add(c)
+	}
+	// the RowWriter adaptors of the library in front of a Writer whose row groups are flushed from
+	// inside WriteRows (MaxRowsPerRowGroup): the destination fails while the adaptor is the caller
+	{
+		schema := parquet.SchemaOf(c14Row{})
+		srows := append([]c14Row{}, rows...)
+		sort.SliceStable(srows, func(i, j int) bool { return srows[i].K/40 < srows[j].K/40 })
+		for i := range srows {
+			srows[i].K = srows[i].K / 40 // few distinct keys: consecutive duplicates for the dedupe adaptor
+		}
+		var prs []parquet.Row
+		for i := range srows {
+			prs = append(prs, schema.Deconstruct(nil, &srows[i]))
+		}
+		for i, kind := range []string{"filter", "transform", "dedupe", "multi", "filter"} {
+			viaCopy := i == 4
+			_, kept := c14Wrap(kind, nil, prs)
+			name := "wrap-" + kind
+			if viaCopy {
+				name += "-copyrows"
+			}
+			c := &c14Config{name: name, path: name, bufSize: []int{0, 30, 11, 64, 17}[i], l2buffered: true, nrows: kept,
+				run: c14WrapSteps(kind, viaCopy, schema, prs, []int{13, 13}, parquet.MaxRowsPerRowGroup(6), parquet.PageBufferSize(128))}
+			c.desc = fmt.Sprintf("c14Row path=%s rows=%d (kept %d) batches=[13 13] maxrows=6 pagebuf=128 buf=%d", name, len(prs), kept, c.bufSize)
+			add(c)
+		}
 	}
 	// WriteRowGroup copy path: source files written fault-free first
 	for i, withBloom := range []bool{false, true, true} {
